@@ -186,7 +186,13 @@ Section U.
     | HPool _ => st
     end.
 
-  (** are the OnReorg listeners invoked by this step? *)
+  (** are the OnReorg listeners invoked by this step?  Both AddBlocks and AddValidatedV2Blocks
+      collect the listeners under the lock and call them after releasing it (manager.go, "release
+      lock while notifying listeners"; DESIGN 3.4 lists these windows): a callback therefore runs
+      after the step and may itself call into the manager — a listener that polls from inside its
+      callback is an [HPoll] step following the [HOp] step, which is what the histories of the
+      theorems contain. That the lock really is released is a runtime fact the harness checks with
+      re-entering listeners under a watchdog (c04-manager-deadlock). *)
   Definition hnotifies (m : mgr) (h : hop) : bool :=
     match h with
     | HOp o => (mstep U m o).2
